@@ -969,7 +969,7 @@ def gen_corr_case(rng, L, n=None, builtin=False, other_px=False,
 def correspondence(run):
     rng = run.rng
     groups = []          # (Lut, use_dec, [cases])
-    nuser = 200 if run.thorough else 16
+    nuser = 200 if run.thorough else 14
     per = 8 if run.thorough else 6
     for c in load_corpus():
         if "x" in c and "check" not in c:
@@ -1019,10 +1019,10 @@ def correspondence(run):
     pick = [k for k, inf in enumerate(small_i)
             if inf[0]["x"] and not inf[0].get("nd")]
     for mode, (copy, alias), sel in (
-            ("nocopy", (False, False), pick[0::4]),
-            ("copy", (True, False), pick[1::8]),
-            ("alias_copy", (True, True), pick[2::8]),
-            ("alias_nocopy", (False, True), pick[3::16])):
+            ("nocopy", (False, False), pick[0::6]),
+            ("copy", (True, False), pick[1::12]),
+            ("alias_copy", (True, True), pick[2::12]),
+            ("alias_nocopy", (False, True), pick[3::24])):
         if not sel:
             continue
         rr, ii = [], []
@@ -1047,13 +1047,28 @@ def correspondence(run):
 
     def work(job):
         name, hdr, fn, rendered, infos, shard = job
-        return common.coq_map(run.scratch, name, hdr, fn, rendered,
-                              shard=shard, timeout=1200)
+        big = len(infos[0][4].nodes) > 5000
+        try:
+            return common.coq_map(run.scratch, name, hdr, fn, rendered,
+                                  shard=shard,
+                                  timeout=2400 if big else 1200)
+        except common.ModelError as exc:
+            if big and "timeout" in str(exc):
+                # a 13k/16k-node table costs coqc minutes of parsing; on an
+                # overloaded machine it may not finish: the small tables
+                # and HE-3D-FEM-22 carry the tie, this is reported
+                run.notes.append("Coq evaluation of %s timed out: %s" % (
+                    infos[0][4].name, str(exc)[:120]))
+                run.count("corr:builtin-coq-timeout")
+                return None
+            raise
 
     with ThreadPoolExecutor(max_workers=4) as ex:
         results = list(ex.map(work, jobs))
     for job, res in zip(jobs, results):
         infos = job[4]
+        if res is None:
+            continue
         if id(job) in mem_jobs:
             copy, alias = mem_jobs[id(job)]
             for (case, kinds, dist, cond, L), flat in zip(infos, res):
@@ -1454,6 +1469,11 @@ def history_correspondence(run):
         ops, cops, out = [], [], []
         current = dict(files)
         added = []
+        exptab, etatab = {}, {}
+        hmed = rng.choice([("CellCarrier", "buyukurganci-2022"),
+                           ("0.6% MC-PBS", "herold-2017"),
+                           ("water", "kestin-1978")])
+        hcw, hfr = rng.choice([20.0, 30.0]), rng.choice([0.04, 0.16])
         plan = [None] * rng.randint(5, 12)
         if rng.random() < 0.6:
             # bind the identifier, use it, re-bind it to the other file (the
@@ -1528,21 +1548,62 @@ def history_correspondence(run):
                         dat = "DName %d" % x_
                         arg = strs[x_]
                     pw = 3 if vol else 2
-                    k = rng.choice([0, 1, 2])
-                    xl, dl = [(10.0, 0.01), (56.0, 0.04), (500.0, 0.5)][k]
-                    xv = xl * (cw / 20.0) ** pw
-                    ops.append(["call", how, cw, fr, v, xv, dl])
-                    cops.append("OCall (%s) (mkSetup %s %s %s) (MNum %s) "
-                                "[(%s,%s)]" % (dat, qlit(cw), qlit(fr),
-                                               qlit(0.0), qlit(v), qlit(xv),
-                                               qlit(dl)))
-                    kw = dict(deform=np.array([dl]), medium=v,
-                              channel_width=cw, flow_rate=fr, px_um=0,
-                              temperature=None, visc_model=None, lut_data=arg)
-                    kw["volume" if vol else "area_um"] = np.array([xv])
+                    feat = "volume" if vol else "area_um"
+                    px = rng.choice([0.0, 0.0, 0.25, 0.34])
+                    ne = rng.choice([1, 1, 2, 3])
+                    mk = rng.choice(["num", "num", "scalar", "array"])
+                    if mk != "num":
+                        cw, fr = hcw, hfr      # one eta table per history
+                    xs_, ds_ = [], []
+                    for _e in range(ne):
+                        xl, dl = rng.choice([(10.0, 0.01), (56.0, 0.04),
+                                             (500.0, 0.5), (70.0, 0.05)])
+                        xv = quant(xl * (cw / 20.0) ** pw, 6)
+                        dv = dl + (quant(float(ref_delta(feat, xv, px)), 20)
+                                   if px else 0.0)
+                        xs_.append(xv)
+                        ds_.append(dv)
+                        if px:
+                            fpx = Fraction(px)
+                            sc_ = (Fraction(34, 100) / fpx) ** pw
+                            for tau in ([Fraction(71, 10), Fraction(386, 10),
+                                         Fraction(296)] if not vol else
+                                        [Fraction(40), Fraction(450),
+                                         Fraction(6040)]):
+                                key = -Fraction(xv) * sc_ / tau
+                                exptab[key] = Fraction(math.exp(float(key)))
+                    if mk == "num":
+                        cmed = "(MNum %s)" % qlit(v)
+                        mkw = dict(medium=v, temperature=None,
+                                   visc_model=None)
+                    else:
+                        ts_ = [quant(rng.uniform(22, 26), 3)
+                               for _ in range(ne if mk == "array" else 1)]
+                        for t_ in ts_:
+                            etatab[Fraction(t_)] = Fraction(float(
+                                ref_viscosity(hmed[0], hmed[1], hcw, hfr,
+                                              t_)))
+                        if mk == "array":
+                            cmed = "(MTempArray %s)" % common.clist(
+                                [qlit(t_) for t_ in ts_])
+                            mkw = dict(medium=hmed[0], visc_model=hmed[1],
+                                       temperature=np.array(ts_))
+                        else:
+                            cmed = "(MTempScalar %s)" % qlit(ts_[0])
+                            mkw = dict(medium=hmed[0], visc_model=hmed[1],
+                                       temperature=ts_[0])
+                    ops.append(["call", how, cw, fr, px, mk, xs_, ds_])
+                    cops.append("OCall (%s) (mkSetup %s %s %s) %s %s" % (
+                        dat, qlit(cw), qlit(fr), qlit(px), cmed,
+                        common.clist(["(%s,%s)" % (qlit(a_), qlit(b_))
+                                      for a_, b_ in zip(xs_, ds_)])))
+                    kw = dict(deform=np.array(ds_), channel_width=cw,
+                              flow_rate=fr, px_um=px, lut_data=arg)
+                    kw.update(mkw)
+                    kw[feat] = np.array(xs_)
                     try:
                         e = em.get_emodulus(**kw)
-                        out.append([float(e[0])])
+                        out.append([float(v_) for v_ in e])
                     except Exception as exc:
                         out.append(ERR_CODES.get(type(exc).__name__, 8))
         finally:
@@ -1551,15 +1612,19 @@ def history_correspondence(run):
         world = ("mkWorld [%s] [(1, 101)] [] [(0%%N, %s)] 1%%N" % (
             "; ".join("(%d, %s)" % (c, filespec_coq(sp))
                       for c, sp in sorted(files.items())), q3(trow0)))
-        rendered.append("(%s,\n [%s])" % (world, ";\n ".join(cops)))
+        tab = lambda t: common.clist(["(%s,%s)" % (qlit(a_), qlit(b_))
+                                      for a_, b_ in sorted(t.items())])
+        rendered.append("(%s, %s, %s,\n [%s])" % (
+            tab(exptab), tab(etatab), world, ";\n ".join(cops)))
         expected.append(out)
-        cases.append(dict(kind="history", ops=ops,
+        cases.append(dict(kind="history", ops=ops, medium=list(hmed),
                           files={str(k): dict(cols=v["cols"], units=v["units"],
                                               tag=v["tag"])
                                  for k, v in files.items()}))
     res = common.coq_map(run.scratch, "c05_hist", HEADER,
-                         "(fun c => run_ops_flat (fst c) (snd c))", rendered,
-                         shard=40)
+                         "(fun c => run_ops_flat2 (fst (fst (fst c))) "
+                         "(snd (fst (fst c))) (snd (fst c)) (snd c))",
+                         rendered, shard=15)
     for case, flat, exp in zip(cases, res, expected):
         run.record_case(case, True, sample=False)
         run.count("corr:history")
@@ -1578,16 +1643,18 @@ def history_correspondence(run):
                         k, flat[i], e)
                     break
                 i += 1
-                if flat[i] == 0:
-                    mv, i = None, i + 1
-                else:
-                    mv, i = Fraction(flat[i + 1], flat[i + 2]), i + 3
-                ev = e[0]
-                if (mv is None) != bool(np.isnan(ev)) or (
-                        mv is not None and
-                        abs(float(mv) - ev) > RTOL * abs(ev)):
-                    why = "op %d: model %s, implementation %r" % (
-                        k, mv if mv is None else float(mv), ev)
+                for ev in e:
+                    if flat[i] == 0:
+                        mv, i = None, i + 1
+                    else:
+                        mv, i = Fraction(flat[i + 1], flat[i + 2]), i + 3
+                    if (mv is None) != bool(np.isnan(ev)) or (
+                            mv is not None and
+                            abs(float(mv) - ev) > RTOL * abs(ev)):
+                        why = "op %d: model %s, implementation %r" % (
+                            k, mv if mv is None else float(mv), ev)
+                        break
+                if why:
                     break
             else:
                 if min(flat[i], 1) != min(e, 1):     # classes not compared
@@ -2439,6 +2506,35 @@ def chk_ndbatch(sc, rng):
     return None
 
 
+def chk_nodes(sc, rng):
+    """at a node of the table, in the table's own set-up and without
+    pixelation correction, the event coordinates are bit-identical to the
+    node: the value is determined (the node's modulus times the viscosity
+    ratio), also for nodes on the hull and for the nodes with the largest
+    abscissa / deformation -- no band applies"""
+    L = sc.L
+    n = len(L.nodes)
+    idx = list(range(n)) if n <= 400 else sorted(set(
+        [int(np.argmax(L.nodes[:, 0])), int(np.argmax(L.nodes[:, 1])),
+         int(np.argmin(L.nodes[:, 0])), int(np.argmin(L.nodes[:, 1]))]
+        + [rng.randrange(n) for _ in range(300)]))
+    x = L.nodes[idx, 0].copy()
+    d = L.nodes[idx, 1].copy()
+    v = sc.med["v"] if sc.med["kind"] == "num" else 4.5
+    E = np.atleast_1d(sc.f(x=x, d=d, cw=L.cw, fr=L.fr, px=0,
+                           med=dict(kind="num", v=v)))
+    exp = L.nodes[idx, 2] * (v / L.visc)
+    # duplicate coordinates would make the value ambiguous
+    for k, i in enumerate(idx):
+        if np.isnan(E[k]) or abs(E[k] - exp[k]) > 1e-9 * abs(exp[k]):
+            return ("event at node %d of the table (x=%r, deform=%r, table's "
+                    "own set-up, px_um=0): emodulus=%r, the node's value "
+                    "scaled by the viscosity ratio is %r" % (
+                        i, float(x[k]), float(d[k]), float(E[k]),
+                        float(exp[k])))
+    return None
+
+
 def chk_numtypes(sc, rng):
     """numeric viscosities, temperatures, widths and flow rates given as
     Python int, numpy.int64, numpy.float64, numpy.float32 are numbers like
@@ -2479,7 +2575,7 @@ CHECKS = {
     "px0": chk_px0, "nomutation": chk_nomutation, "lutvia": chk_lutvia,
     "dataset": chk_dataset, "isoelastics": chk_isoelastics,
     "rewrite": chk_rewrite, "ndbatch": chk_ndbatch,
-    "numtypes": chk_numtypes,
+    "numtypes": chk_numtypes, "nodes": chk_nodes,
 }
 NEED_SCRATCH = ("lutvia", "dataset", "rewrite")
 
@@ -2547,7 +2643,7 @@ def oracle_cases(run):
         case["rseed"] = rng.randrange(1 << 30)
         out.append((case, kinds))
     # generated tables: many calls, few events
-    for k in range(1500 if th else 90):
+    for k in range(1500 if th else 75):
         vol = k % 4 == 0
         if k % 4 == 2:
             L = gen_grid_lut(rng)
